@@ -375,6 +375,51 @@ func genC20seq(thorough bool, rng *Rng) {
 			}
 		}
 	}
+	// 1b. a per-character memo that outlives a setting change (seed C20-6): the LAST character measured or
+	//     drawn under setting A is the FIRST (and the last, and the only) character measured and drawn under
+	//     setting B; A -> B is a mode flip, a font change, a size change or a spacing change; characters
+	//     whose proportional / fixed / per-font widths differ most (i l 1 . ' W M m space, an unknown byte)
+	type setting struct {
+		f      int
+		p      bool
+		h, v   int
+		sp     int
+	}
+	chars := []byte{'i', 'l', '1', '.', '\'', 'W', 'M', 'm', ' ', 200}
+	if !thorough {
+		chars = []byte{'i', 'l', '.', 'W', ' ', 200}
+	}
+	for f := 0; f < 3; f++ {
+		for _, p := range []bool{true, false} {
+			for _, sz := range [][2]int{{1, 1}, {2, 1}, {3, 2}, {4, 4}} {
+				A := setting{f, p, sz[0], sz[1], 0}
+				Bs := []setting{{f, !p, sz[0], sz[1], 0}, {(f + 1) % 3, p, sz[0], sz[1], 0}, {(f + 2) % 3, !p, sz[0], sz[1], 0},
+					{f, p, sz[0]%4 + 1, sz[1], 0}, {f, p, sz[0], sz[1], 2}}
+				for bi, B := range Bs {
+					for ci, c := range chars {
+						if !thorough && (bi+ci+f+sz[0])%2 == 1 {
+							continue
+						}
+						pre := append(c20plainString(rng, rng.Range(0, 3)), c)
+						post := append([]byte{c}, c20plainString(rng, rng.Range(0, 3))...)
+						last := c20oSw(pre)
+						if (bi+ci)%2 == 1 {
+							last = c20oTxt(pre) // the last look-up under A comes from drawing, not from measuring
+						}
+						setB := []c20op{c20oFont(B.f, B.p), c20oTsz(B.h, B.v), c20oSpc(B.sp)}
+						if B.f == A.f && B.p == A.p { // leave the font untouched when only size / spacing change
+							setB = setB[1:]
+						}
+						ops := []c20op{c20oWrap(false), c20oFont(A.f, A.p), c20oTsz(A.h, A.v), c20oSpc(A.sp), c20oCur(2, 2), last}
+						ops = append(ops, setB...)
+						ops = append(ops, c20oClr(), c20oSw(post), c20oCur(7, 3), c20oTxt(post), c20oClr(), c20oCur(40, 9), c20oTxt([]byte{c}),
+							c20oClr(), c20oSw(append(append([]byte{}, post...), c)), c20oCur(11, 5), c20oTxt(append(append([]byte{}, post...), c)))
+						c20seq(W, H, ops)
+					}
+				}
+			}
+		}
+	}
 	// 2. random interleavings
 	n := 700
 	if thorough {
